@@ -251,8 +251,8 @@ def _apply(op: str, ref: Ref, sim, a, b, a_ip, log, wired, ntype: str, t: int) -
                 check(not started, f"service {svc.name}.start() succeeded on a {pre} node")
         for app in list(a.applications.values()):
             app.run()
-        for nic in wired:
-            nic.enable()  # the interface API is refused on a node that is not ON (checked below: no interface enabled)
+        for nic in list(a.network_interface.values()):
+            nic.enable()  # wired and wireless: the interface API is refused on a node that is not ON (checked below: no interface enabled)
         after_sw = {x.name: x.operating_state.name for x in list(a.services.values()) + list(a.applications.values())}
         if not pre_on:
             cover("sw_api_not_on")
@@ -370,6 +370,7 @@ HARNESSES = {
         "quick": [
             {"fixed": {"n_ops": 2, "dmax": 2, "ntype": "computer"}, "timeout": 200},
             {"fixed": {"n_ops": 2, "dmax": 2, "ntype": "router"}, "timeout": 200},
+            {"fixed": {"n_ops": 2, "dmax": 1, "ntype": "wireless-router"}, "timeout": 280},
             # a timed folder scan is started first, so that file-system work is pending when the node goes down
             {"fixed": {"n_ops": 3, "dmax": 2, "ntype": "computer", "op0": 8}, "timeout": 280},
             # an early-installed service is disabled first, then the node is power-cycled (su=0 brings it back within the job)
